@@ -341,6 +341,17 @@ def _add(module: Module, val: ModuleAttr) -> ModuleAttr:
         # Nonetheless gotta raise an error if we get here, somehow.
         _attr_type_error(val)
 
+    # Each name denotes a single attribute. Remove any prior holder of the name, of whatever type.
+    for ctr in (
+        module.ports,
+        module.signals,
+        module.instances,
+        module.instarrays,
+        module.instbundles,
+        module.bundles,
+    ):
+        ctr.pop(val.name, None)
+
     # Add it to the module namespace, and the type-specific container
     type_ctr[val.name] = val
     module.namespace[val.name] = val
